@@ -675,6 +675,20 @@ pub fn run(cfg: &Cfg, rep: &mut Report) {
             }
         }
     }
+    // a prefix operator binds tighter than every binary operator, on either operand, constant or not
+    for (op, _) in BIN.iter() {
+        for pre in ["!", "-"] {
+            for (a, b) in [("5", "7"), ("hi(5)", "hi(7)"), ("hi(5)", "7"), ("5", "hi(7)"), ("hi(0)", "hi(1)"), ("true", "false"), ("hb(true)", "hb(false)"), ("hb(true)", "false")] {
+                ctx.template_rel(&format!("{pre}{a} {op} {b}"), &format!("({pre}{a}) {op} {b}"), &format!("prefix-vs-binary:{pre}:{op}"));
+                ctx.template_rel(&format!("{a} {op} {pre}{b}"), &format!("{a} {op} ({pre}{b})"), &format!("binary-vs-prefix:{op}:{pre}"));
+                ctx.template_rel(&format!("{pre}{a} {op} {pre}{b}"), &format!("({pre}{a}) {op} ({pre}{b})"), &format!("prefix-both:{pre}:{op}"));
+            }
+        }
+        for (c, v) in [("mut 5", "7"), ("mut 5", "hi(7)")] {
+            ctx.template_rel(&format!("c := {c}; *c {op} {v}"), &format!("c := {c}; (*c) {op} {v}"), &format!("deref-vs-binary:{op}"));
+            ctx.template_rel(&format!("c := {c}; {v} {op} *c"), &format!("c := {c}; {v} {op} (*c)"), &format!("binary-vs-deref:{op}"));
+        }
+    }
     // chains made of assignment operators and plain operands only (the same operator twice, any two, three in a row)
     for a1 in assigns {
         for a2 in assigns {
